@@ -2,7 +2,9 @@
 
 excgen functions (nested try/except/else/finally, with, except*, raise / raise from / bare raise,
 return/break/continue in handlers and finally blocks inside loops, nested functions and generators) are compiled and
-called with every single injection and sampled pairs of injections (which point raises which exception class).
+called with every single injection, sampled pairs of injections (which point raises which exception class) and directed
+scenarios (for every return/break/continue/raise nested in except / finally clauses the injections that run all enclosing
+clauses on their exception path, so that several exceptions are alive at the jump).
 Every block logs its id and the exception being handled; the log, the result and the propagating exception (class,
 args, __cause__/__context__/__suppress_context__ chain, ExceptionGroup structure) are compared with CPython
 executing the same source.
@@ -97,6 +99,8 @@ def crash_key(f):
     if any(x in feats for x in ('break-in-finally', 'continue-in-finally')) and any(x.startswith('return-in-') for x in feats) \
             and ('nested-generator' in feats or 'loop' in feats):
         return 'crash-return-in-loop-overridden-by-jump-in-finally'
+    if any(x.startswith('raise-in-') and x.endswith('-intercepted') for x in feats):
+        return 'crash-bare-raise-caught-again-inside-its-clause'
     if re.search(r'^\s*raise$', src, re.M) and any(x.split('-in-')[0] in ('return', 'break', 'continue') for x in feats):
         return 'crash-jump-out-of-except-clause-after-bare-raise'
     return 'crash'
@@ -150,12 +154,15 @@ def main(ck):
     mods = {}
     fmap = {}
     feat = {}
+    nscen = nscen_funcs = 0
     for mi in range(0, nfuncs, per_mod):
         name = 'c22m%d' % (mi // per_mod)
         funcs = [excgen.gen_function(rng, 'ez%dz' % (mi + i), star=((mi + i) % 5 == 4)) for i in range(min(per_mod, nfuncs - mi))]
         mods[name] = (excgen.HEADER + '\n\n'.join(f['src'] for f in funcs), funcs)
         for f in funcs:
             fmap[f['name']] = f
+            nscen += len(f['scenarios'])
+            nscen_funcs += bool(f['scenarios'])
             for x in f['feat']:
                 feat[x] = feat.get(x, 0) + 1
     d, info = tree.build_sources({n: s for n, (s, _) in mods.items()}, subdir='b', ext='.py')
@@ -221,15 +228,26 @@ def main(ck):
                 'nested-function', 'try-else']
     for x in required:
         ck.inconclusive_if(feat.get(x, 0) < floor, 'construct %s only in %d functions (< %d)' % (x, feat.get(x, 0), floor))
+    # jumps in a finally clause of a try statement that is itself inside an except clause (two exceptions alive at once):
+    # rarer construct, own floors; 'directed' = injection vectors that make every enclosing clause run on its exception path
+    floor2 = ck.pick(4, 20)
+    fih = sum(v for k, v in feat.items() if k.endswith('-in-finally-in-handler'))
+    ck.inconclusive_if(feat.get('raise-in-finally', 0) < floor, 'bare raise in a finally clause only in %d functions' % feat.get('raise-in-finally', 0))
+    ck.inconclusive_if(feat.get('raise-in-finally-in-handler', 0) < floor2,
+                       'bare raise in a finally clause inside an except clause only in %d functions' % feat.get('raise-in-finally-in-handler', 0))
+    ck.inconclusive_if(fih < 3 * floor2, 'jumps in finally clauses inside except clauses only in %d functions' % fih)
+    ck.inconclusive_if(nscen < 10 * floor2, 'only %d directed scenarios' % nscen)
     ck.inconclusive_if(skipped * 5 > len(mods), '%d of %d modules failed to build' % (skipped, len(mods)))
     return ck.finish(
         total_n, total_distinct,
         'excgen functions (depth <= 3) called with no injection, every single injection (2 exception classes per point; '
-        'ExceptionGroups for except* functions), conditional-jump flags and sampled pairs; compared with CPython: ordered '
+        'ExceptionGroups for except* functions), conditional-jump flags, sampled pairs and directed scenarios (for every jump '
+        'nested in except/finally clauses: the body of every enclosing try raises an exception the clause receives); compared with CPython: ordered '
         'log of executed blocks with sys.exc_info() at each, result, propagating exception with args, chain and group '
         'structure. distinct = distinct (function, CPython observation)',
         samples,
-        extra={'functions': nfuncs, 'modules_failed_build': skipped, 'construct_functions': feat,
+        extra={'functions': nfuncs, 'modules_failed_build': skipped, 'construct_functions': feat, 'directed_scenarios': nscen,
+               'functions_with_directed_scenarios': nscen_funcs,
                'cases_differing_only_in_generator_finalisation_order': order_only,
                'construct_case_counts': ncases_feat, 'outcome_hist': dict(sorted(hist.items(), key=lambda kv: -kv[1])[:30])},
         assumptions=['CPython 3.12.1 executing the identical source is the reference',
